@@ -1111,7 +1111,8 @@ class DecayModelAliasReplacement(Transformer):  # type: ignore[misc]
                 f"Decay model or ModelAlias {t.value} is not defined. Please load the decay model with "
                 "``load_additional_decay_models`` or define a ModelAlias in the decayfile."
             )
-        return self.define_defs[t.value]
+        # Each use of the alias gets its own copy of the aliased model sub-tree
+        return copy.deepcopy(self.define_defs[t.value])
 
     def model(self, treelist: list[Tree]) -> Tree:
         """
